@@ -184,6 +184,16 @@ theorem spz_write_read {gzip : List UInt8 â†’ List UInt8} {gunzip : List UInt8 â
     Â· intro d hd
       simp [e6, hd, hi, dequant]
 
+/-- OBSERVATION as a theorem (`fractionalBits = 63`, previously only mirrored and tied): Go's `1 << 63` on a 64-bit
+    `int` is the minimum integer, so `scale = 1/float64(b)` is `âˆ’2^âˆ’63` and EVERY coordinate comes out with the
+    opposite sign of the published value `v / 2^63` -/
+theorem spz_fixed_point_fb63_sign_flip (E : Env â„) (hE : SpzRef.RealEnv E) (b0 b1 b2 : UInt8) :
+    fixedCoord E 63 b0 b1 b2 = -(((fixed24 b0 b1 b2 : Int) : â„) / 2 ^ 63) := by
+  simp only [fixedCoord, posScale, hE.1, shl1, natF, if_neg (show Â¬ (63 < 63) by omega), if_true]
+  push_cast
+  rw [one_div, inv_neg, mul_neg, div_eq_mul_inv]
+  norm_num
+
 /-! ### non-vacuity -/
 
 /-- a version-1 cloud of two splats, SH degree 1 (three coefficients each), values not representable exactly -/
